@@ -180,6 +180,30 @@ func main() {
 				fail("session_kind", fmt.Sprintf("session-kind:%s-for-%s", res, map[int]string{0: "non-hosted", 1: "regular", 2: "concurrent", 3: "on-disk"}[t]),
 					fmt.Sprintf("GetSession(%d) handed out %s, shard is %s, expected %s", sid, res, map[int]string{0: "not hosted", 1: "regular", 2: "concurrent", 3: "on-disk"}[t], want))
 			}
+			if isHosted && q%3 == 0 {
+				// the same call with a context the local call refuses (no deadline): the facade has to hand back the local
+				// error through the status-code table, whatever kind of session the shard gets
+				_, lerr := h.NH.SyncGetSession(context.Background(), sid)
+				var ferr error
+				fc := func() (c bool) {
+					defer func() {
+						if r := recover(); r != nil {
+							c = true
+						}
+					}()
+					_, ferr = api.GetSession(context.Background(), &mr.SessionRequest{ShardId: sid})
+					return false
+				}()
+				run.Count("c19:get_session_with_refused_context")
+				switch {
+				case fc:
+					fail("every_error_mapped", "get-session-failure-crashes", fmt.Sprintf("GetSession(%d) with a context the NodeHost refuses (%v locally) crashed the facade instead of returning a status", sid, lerr))
+				case t != 3 && lerr != nil && ferr == nil:
+					fail("every_error_mapped", "get-session-failure-hidden", fmt.Sprintf("GetSession(%d): the local call fails with %v, the facade reports success", sid, lerr))
+				case t != 3 && lerr != nil && status.Code(ferr) != status.Code(drummer.GRPCError(lerr)):
+					fail("every_error_mapped", "get-session-failure-code", fmt.Sprintf("GetSession(%d): the local call fails with %v (status %s), the facade reports %s", sid, lerr, status.Code(drummer.GRPCError(lerr)), status.Code(ferr)))
+				}
+			}
 			if err == nil && isHosted {
 				// the facade is transparent: propose and read through it, then read locally
 				cmd, _ := (&kv.KV{Key: fmt.Sprintf("k%d", q), Val: fmt.Sprintf("v%d", q)}).MarshalBinary()
